@@ -552,6 +552,7 @@ class StubDelaunay:
     boolean per query (geometry is then decided in another harness)."""
 
     mode = "geometry"
+    oracle_free = None  # oracle mode: only the first `oracle_free` queries may be judged outside (a stated bound)
 
     def __init__(self, points, **kw):
         self.points = np.asarray(points, dtype=object)
@@ -586,6 +587,8 @@ class StubDelaunay:
                     strictly_out_all.append(outside)
                 eng.add(z3.Implies(z3.Or(*strictly_in), L == 0))
                 eng.add(z3.Implies(z3.And(*strictly_out_all), L == -1))
+            if StubDelaunay.mode == "oracle" and StubDelaunay.oracle_free is not None and k >= StubDelaunay.oracle_free:
+                eng.add(L == 0)
             out[k] = eng.concretize_int(L)
         if StubDelaunay.mode == "oracle":
             ORACLE_LOG.append([bool(v != -1) for v in out])
